@@ -34,7 +34,8 @@ TOKS = ["ago", "in", "am", "pm", "t", "z", "utc", "gmt", "+", "-", ":", ".", "/"
         "[]", "{}", "<>", "\\", "%", "%d", "\x00", "‎", "‏", "\xa0", "\n", "\t", "’", "٣", "١٢",
         "௧", "\U0001d7d9", "\xb2", "\xbd", "Ⅳ", "一", "月", "日", "年", "時", "분", "초",
         "+05:30", "-0500", "+9999", "EST", "(EST)", "PST8PDT", "Z", "г.", "u", "on:", "le", "de", "el", "วัน",
-        "۱۲", "１２", "१२", "1234567890", "-1234567890123", "12345678", "ago ago", "in in"]
+        "۱۲", "１２", "१२", "1234567890", "-1234567890123", "12345678", "ago ago", "in in",
+        "−1484823450", "–1234567890123", "－1234567890", "١٤٨٤٨٢٣٤٥٠", "-١٤٨٤٨٢٣٤٥٠"]
 DIRECTIVES = "aAbBdHIjmMpSyYf"
 
 
@@ -227,6 +228,7 @@ OFFS = ["", " +0000", " -0500", " +1400", " -1200", " EST", " UTC", " Z", " +05:
 REL = ["in 1 day", "1 day ago", "in 1 month", "1 year ago", "in 1 decade", "tomorrow", "yesterday", "now", "in 24 hours",
        "1 second ago", "in 5000 years", "9999 years ago", "in 1 week", "next year", "last month", "2 hours ago EST",
        "in 1 hour +1400", "1 week ago at 23:59", "in 9999 decades", "0 seconds ago", "in 1.5 hours", "today 00:00", "10000 days ago"]
+SIGNS = ["−", "–", "—", "‐", "﹣", "－", "+", "-", "--", "−-", "±"]
 TS = ["9999999999", "1000000000", "9999999999999", "-9999999999", "-1000000000123", "0000000000", "253402300799", "99999999999",
       "-99999999999", "2534023007990", "-6213559680000", "9999999999999999", "-9999999999999999"]
 EDGE_TZS = ["UTC", "Pacific/Kiritimati", "Pacific/Pago_Pago", "Asia/Kolkata", "America/New_York", "EST", "+0530", "-1200", "UTC+14",
@@ -246,6 +248,12 @@ def gen_edge(g):
         s = rnd.choice(REL)
     else:
         s = rnd.choice(TS)
+        if rnd.random() < 0.35:
+            # sign look-alikes and native digits in front of / inside an epoch-shaped number
+            body = s.lstrip("-")
+            if rnd.random() < 0.3:
+                body = "".join(chr(0x660 + int(ch)) if ch.isdigit() else ch for ch in body)
+            s = rnd.choice(SIGNS) + body + rnd.choice(["", "", ".", ".5", " "])
     st = {}
     if rnd.random() < 0.7:
         st["TIMEZONE"] = rnd.choice(EDGE_TZS)
@@ -261,8 +269,10 @@ def gen_edge(g):
         st["PREFER_DAY_OF_MONTH"] = rnd.choice(["first", "last", "current"])
     if rnd.random() < 0.3:
         st["PREFER_MONTH_OF_YEAR"] = rnd.choice(["first", "last", "current"])
-    if rnd.random() < 0.2:
-        st["PARSERS"] = ["negative-timestamp", "timestamp", "relative-time", "absolute-time", "no-spaces-time"]
+    if rnd.random() < 0.3:
+        st["PARSERS"] = rnd.choice([["negative-timestamp", "timestamp", "relative-time", "absolute-time", "no-spaces-time"],
+                                    ["negative-timestamp"], ["timestamp", "negative-timestamp"],
+                                    ["no-spaces-time", "negative-timestamp", "absolute-time"]])
     if rnd.random() < 0.2:
         st["DATE_ORDER"] = rnd.choice(["DMY", "YMD", "MDY"])
     if rnd.random() < 0.15:
